@@ -48,6 +48,7 @@ type ExploreStats struct {
 	Violations   []Found
 	MaxPreempt   int
 	SleepBlocked int // executions cut by the sleep sets (redundant prefixes)
+	SelectSeen   bool // mode A was abandoned because the program executes a select statement
 }
 
 // Explore enumerates depth-first every schedule of prog whose number of
@@ -206,6 +207,12 @@ func exploreSleep(prog Program, opts ExploreOpts) ExploreStats {
 			stats.Complete = false
 			return stats
 		}
+		if ex.UsedSelect {
+			// the clause choice of a select is not modelled by the reductions: give up mode A for this program
+			stats.Complete = false
+			stats.SelectSeen = true
+			return stats
+		}
 		if ex.SleepBlocked {
 			stats.SleepBlocked++
 		} else {
@@ -322,6 +329,12 @@ func exploreDPOR(prog Program, opts ExploreOpts) ExploreStats {
 			nodes = append(nodes, n)
 		}
 		// the propagated sleep set of the deviation node was recorded with the installed siblings; keep the union
+		if ex.UsedSelect {
+			// the clause choice of a select is not modelled by the reductions: give up mode A for this program
+			stats.Complete = false
+			stats.SelectSeen = true
+			return stats
+		}
 		if ex.SleepBlocked {
 			stats.SleepBlocked++
 		} else {
